@@ -104,6 +104,22 @@ CLAIMED = {
         "payloads over the wikitext token alphabet (no private-use placeholder characters, a documented assumption of the package); comment payloads without '-->' and nowiki tags.",
         "DESIGN.md §5 C15",
     ),
+    "C09": (
+        ["Context", "Gen_Context", "Trace_Context"],
+        "TLA+ model of every retained cell of the context (scope, reset point) and page kinds as readers/writers; TLC checks non-interference over all histories and emits every history with the cells the as-is model says interfere; "
+        "each history run on one real context vs fresh contexts (separate processes), comparing trees, expansions and messages; random long histories attributed by a TLC trace spec",
+        "Bounded-exhaustive over histories of 17-18 page kinds (<=2 quick, <=3 thorough; model: <=4) plus random histories up to 30 pages; differences are reported unless the as-is model explains them by a listed finding.",
+        "one concrete page per page kind; Lua through offline stand-ins; retained-library and string-metatable sharing are listed findings (deliberate retention of modules).",
+        "DESIGN.md §5 C09",
+    ),
+    "C05": (
+        ["Expander", "Gen_Expander", "Expr"],
+        "(a) expander twin evaluated by TLC on cyclic libraries / deep nests (termination, work bound, cuts reported) and replayed on the real expand() under a wall-clock bound; random cyclic libraries validated by the twin from a file; "
+        "(b) TLA+ model of #expr tokenizer/ladder with explicit error outcomes and parser-function argument classes, every TLC-enumerated call run through the real expand()",
+        "Bounded-exhaustive termination/in-band reporting over cyclic template libraries, nests to depth 100, #expr token sequences and every parser function x argument classes.",
+        "wall-clock bound 20 s per small page; network helpers stubbed; Lua via offline stand-ins.",
+        "DESIGN.md §5 C05, notes/C05b.md",
+    ),
 }
 NOT_YET = "check not built yet in this round (see DESIGN.md §10 build order); nothing is claimed for it"
 
